@@ -243,6 +243,12 @@ def handle (w : W) (line : String) : W × String :=
            | .ok i => (match t.objs[i]? with | some o => s!"ok\td{showDim o.key}" | none => "BAD")
            | .error e => s!"ERR\t{e.name}")
        | none => bad)
+  | ["N", "ddefine", name, sym] =>
+      -- `Dimension.define` with a TAKEN name: the constructor raises before any key is widened (a successful
+      -- define re-keys every dimension and is not modelled; the generator never asks for one)
+      let v : Dim := List.replicate w.st.ndim 0 ++ [1]
+      let (_, r) := w.dtab.construct v (optStr name) (optStr sym)
+      (w, match r with | .error e => s!"ERR\t{e.name}" | .ok _ => "ERR\tUnmodelled")
   | ["N", "dderive", d, name, sym] =>
       (match parseD d with
        | some v =>
